@@ -237,7 +237,24 @@ func vpLsFiles() ([]vpPair, bool) {
 	return out, true
 }
 
-// VP_C05_Cli: reset --mixed to a commit makes ls-files -s equal the set staged when it was made (names with spaces, empty snapshot).
+// vpSortedPairs: (path, blob id of content) of the given files in ascending byte order of path (insertion sort in the harness)
+func vpSortedPairs(fs []vpFile) []vpPair {
+	var out []vpPair
+	for _, f := range fs {
+		p := vpPair{f.path, string(vpBlobID(f.content))}
+		i := len(out)
+		out = append(out, p)
+		for i > 0 && out[i-1].path > p.path {
+			out[i] = out[i-1]
+			i--
+		}
+		out[i] = p
+	}
+	return out
+}
+
+// VP_C05_Cli: reset --mixed to a commit makes ls-files -s equal the set staged when it was made (names with spaces, empty snapshot,
+// a tracked file re-staged between the commits).
 func VP_C05_Cli() {
 	vpInitRepo()
 	w := zzvp.Root()
@@ -246,32 +263,34 @@ func VP_C05_Cli() {
 		vpOK(zzvp.Run("add", f.path))
 	}
 	vpOK(zzvp.Run("commit", "-m", "A"))
-	stagedA, _ := vpReadIndex()
-	emptyLater := zzvp.Choose(2) == 1
-	if emptyLater {
+	wantA := vpSortedPairs(files)
+	var wantB []vpPair
+	if zzvp.Choose(2) == 1 {
 		for _, f := range files {
 			vpOK(zzvp.Run("rm", f.path))
 		}
 		vpOK(zzvp.Run("commit", "-m", "all removed"))
 	} else {
-		zzvp.WriteFile(w+"/"+files[0].path, []byte("changed"))
-		vpOK(zzvp.Run("add", files[0].path))
+		// re-stage one tracked file (any of them, not only the last one in path order) with new content
+		k := zzvp.Choose(len(files))
+		files[k].content = []byte("changed")
+		zzvp.WriteFile(w+"/"+files[k].path, files[k].content)
+		vpOK(zzvp.Run("add", files[k].path))
 		vpOK(zzvp.Run("commit", "-m", "B"))
+		wantB = vpSortedPairs(files)
 	}
-	stagedB, _ := vpReadIndex()
 	// further staging, then back to A
 	zzvp.WriteFile(w+"/zz", []byte("z"))
 	vpOK(zzvp.Run("add", "zz"))
 	r := zzvp.Run("reset", "--mixed", "HEAD@{1}")
 	zzvp.Assert(r.Exit == 0, "reset --mixed to a commit Goit created succeeds")
 	ls, ok := vpLsFiles()
-
-	zzvp.Assert(ok && vpSamePairList(ls, stagedA), "after reset --mixed to commit A, ls-files -s equals the set staged when A was made")
+	zzvp.Assert(ok && vpSamePairList(ls, wantA), "after reset --mixed to commit A, ls-files -s equals the set staged when A was made")
 	// and forward again to B (position 1 is now B)
 	r = zzvp.Run("reset", "--mixed", "HEAD@{1}")
 	zzvp.Assert(r.Exit == 0, "reset --mixed to the later commit succeeds (also when its snapshot is empty)")
 	ls, ok = vpLsFiles()
-	zzvp.Assert(ok && vpSamePairList(ls, stagedB), "after reset --mixed to commit B, ls-files -s equals the set staged when B was made")
+	zzvp.Assert(ok && vpSamePairList(ls, wantB), "after reset --mixed to commit B, ls-files -s equals the set staged when B was made")
 	st := zzvp.Run("status")
 	zzvp.Assert(st.Exit == 0, "status works on every snapshot Goit wrote")
 	zzvp.Done()
